@@ -270,12 +270,12 @@ View == LET cs == C  n == Len(cs)  rg == Ranges  xs == XsOn(cs)  rs == RsOn(cs) 
   snames |-> Join([i \in 1..Len(vars) |-> [j \in 1..vars[i].size |->       \* get_indexed_variable_names / to_scalar_variables
                 IF vars[i].size = 1 THEN vars[i].name ELSE vars[i].name \o "[" \o ToString(j - 1) \o "]"]]),
   shasv  |-> [k \in 1..n |-> cs[k].hasv],
+  cvals  |-> cf,                                                      \* per component: the value (0 where there is none)
   curin  |-> \A k \in 1..n : cs[k].hasv => Member(cs[k], cs[k].val),  \* the current value is inside the bounds
   idxrev |-> IndexesOn(rg, Reverse(NamesOf(vars))),                   \* get_variables_indexes(reversed names, False)
   idxall |-> IndexesOn(rg, NamesOf(vars))                             \* get_variables_indexes(reversed names, True)
 ]
-\* (printed once per distinct state within the depth bound; TLC also evaluates invariants on the states just beyond it)
-EmitView == (TLCGet("level") <= MaxLevel) => PrintT(<<"VIEW", vars, intNorm, View>>)
+\* (printed per state by DesignSpaceViews!EmitIdx)
 
 \* ================================================================== invariants (the property, on the model)
 TypeOK ==
@@ -319,6 +319,11 @@ Algebra == LET cs == C  n == Len(cs)  xs == XsOn(cs)  ys == YsOn(n)  gs == GsOn(
           UGdefined(c) => (UG(c, NG(c, g)) = g /\ NG(c, UG(c, g)) = g)
   \* Lossless: dict <-> array
   /\ \A p \in 1..Len(xs) : Join(SplitOn(Ranges, xs[p])) = xs[p]
+\* TLC also evaluates invariants on the (many, never stored) states just beyond the depth bound: skip them there
+InBound == TLCGet("level") <= MaxLevel    \* (not the CONSTRAINT operator itself: TLC -coverage cannot share it)
+TypeOKB == InBound => TypeOK
+PartitionB == InBound => Partition
+AlgebraB == InBound => Algebra
 \* rounded values are integers at distance at most 1/2 (constant-level)
 ASSUME Rounding == \A x \in -40..40 : /\ RLo(x) % U = 0 /\ RHi(x) % U = 0 /\ RLo(x) <= RHi(x)
                                       /\ x - RLo(x) <= 4 /\ RLo(x) - x <= 4 /\ x - RHi(x) <= 4 /\ RHi(x) - x <= 4
